@@ -49,7 +49,8 @@ def eqfields(repo, res, rule="EQFIELDS"):
     ok = False
     if fn is not None:
         for n in A.walk(fn.body):
-            if n["k"] == "Binary" and n["op"] == "==" and "Inp::from_input" in repo.text(fn.file, n["left"]) and "inp" in repo.text(fn.file, n["right"]):
+            # some `==` one side of which is Inp::from_input(..) of a position (either operand order, whatever the other side is called)
+            if n["k"] == "Binary" and n["op"] == "==" and any(x["k"] == "Call" and x["func"]["k"] == "Path" and x["func"]["path"].endswith("from_input") for side in (n["left"], n["right"]) for x in A.walk(side)):
                 ok = True
     res.check(ok, rule, f"{rule}:dfa_from_regex:merge-by-Inp-eq", "positions are merged when Inp::from_input(position) == symbol", fn.loc() if fn else "")
 
